@@ -1,6 +1,179 @@
-//! Replay of wrapper-level scenarios: calls the decorated subjects natively with a scripted environment.
+//! Replay of wrapper-level scenarios: calls the decorated subjects (vsubjects) natively with a scripted
+//! environment, on chosen threads, with manual polling of async calls, invalidations and statistics queries.
+use std::collections::HashMap;
+use std::future::Future;
+use std::pin::Pin;
+use std::sync::mpsc::{channel, Sender};
+use std::sync::{Arc, Mutex};
+use std::task::{Context, Poll, RawWaker, RawWakerVTable, Waker};
+use vsubjects::env;
+
+fn noop_raw() -> RawWaker {
+    fn clone(_: *const ()) -> RawWaker {
+        noop_raw()
+    }
+    fn noop(_: *const ()) {}
+    static VT: RawWakerVTable = RawWakerVTable::new(clone, noop, noop, noop);
+    RawWaker::new(std::ptr::null(), &VT)
+}
+fn waker() -> Waker {
+    unsafe { Waker::from_raw(noop_raw()) }
+}
+
+type Fut = Pin<Box<dyn Future<Output = Option<String>>>>;
+
+fn block_on(mut f: Fut) -> Option<String> {
+    let w = waker();
+    let mut cx = Context::from_waker(&w);
+    for _ in 0..10_000 {
+        if let Poll::Ready(v) = f.as_mut().poll(&mut cx) {
+            return v;
+        }
+    }
+    Some("<never ready>".into())
+}
+
+fn do_call(name: &str, recv: u64, a: &[u64]) -> String {
+    let r = if vsubjects::is_async(name) {
+        block_on(Box::pin(vsubjects::call_async(unsafe { std::mem::transmute::<&str, &'static str>(name) }, recv, a.to_vec())))
+    } else {
+        vsubjects::call_sync(name, recv, a)
+    };
+    r.unwrap_or_else(|| "<unknown subject>".into())
+}
+
+type Job = Box<dyn FnOnce() -> String + Send>;
+
 pub fn run(lines: &[String]) -> Vec<String> {
     let mut out = Vec::new();
-    out.push(format!("unsupported subject scenario ({} lines)", lines.len()));
+    env::reset();
+    let mut workers: HashMap<u64, Sender<(Job, Sender<String>)>> = HashMap::new();
+    let mut slots: HashMap<u64, Fut> = HashMap::new();
+    let mut logpos = 0usize;
+    for line in lines {
+        let t: Vec<&str> = line.split_whitespace().collect();
+        if t.is_empty() {
+            continue;
+        }
+        match t[0] {
+            "script" => {
+                let id: u32 = t[2].parse().unwrap();
+                let vals: Vec<u64> = t[3..].iter().map(|x| x.parse().unwrap()).collect();
+                env::with(|s| match t[1] {
+                    "vals" => s.vals.entry(id).or_default().extend(vals.iter().cloned()),
+                    "oks" => s.oks.entry(id).or_default().extend(vals.iter().map(|v| *v != 0)),
+                    "preds" => s.preds.entry(id).or_default().extend(vals.iter().map(|v| *v != 0)),
+                    "stales" => s.stales.entry(id).or_default().extend(vals.iter().map(|v| *v != 0)),
+                    "caps" => s.caps.entry(id).or_default().extend(vals.iter().map(|v| *v as usize)),
+                    "pendings" => {
+                        s.pendings.insert(id, vals[0] as u32);
+                    }
+                    _ => {}
+                });
+            }
+            "call" => {
+                let tid: u64 = t[1].parse().unwrap();
+                let name = t[2].to_string();
+                let recv: u64 = t[3].parse().unwrap();
+                let a: Vec<u64> = t[4..].iter().map(|x| x.parse().unwrap()).collect();
+                let r = if tid == 0 {
+                    match std::panic::catch_unwind(|| do_call(&name, recv, &a)) {
+                        Ok(r) => r,
+                        Err(e) => format!(
+                            "<panic {}>",
+                            e.downcast_ref::<String>().cloned().or_else(|| e.downcast_ref::<&str>().map(|s| s.to_string())).unwrap_or_default().replace('\n', " ")
+                        ),
+                    }
+                } else {
+                    let tx = workers.entry(tid).or_insert_with(|| {
+                        let (tx, rx) = channel::<(Job, Sender<String>)>();
+                        std::thread::spawn(move || {
+                            for (job, back) in rx {
+                                let r = std::panic::catch_unwind(std::panic::AssertUnwindSafe(job)).unwrap_or_else(|_| "<panic>".into());
+                                let _ = back.send(r);
+                            }
+                        });
+                        tx
+                    });
+                    let (btx, brx) = channel();
+                    let n2 = name.clone();
+                    tx.send((Box::new(move || do_call(&n2, recv, &a)), btx)).unwrap();
+                    brx.recv().unwrap_or_else(|_| "<worker died>".into())
+                };
+                out.push(format!("ret {}", r));
+                out.push(format!("execs {}", env::execs()));
+            }
+            "spawn" => {
+                let slot: u64 = t[1].parse().unwrap();
+                let name: &'static str = Box::leak(t[2].to_string().into_boxed_str());
+                let recv: u64 = t[3].parse().unwrap();
+                let a: Vec<u64> = t[4..].iter().map(|x| x.parse().unwrap()).collect();
+                slots.insert(slot, Box::pin(vsubjects::call_async(name, recv, a)));
+                out.push("spawned".into());
+            }
+            "poll" => {
+                let slot: u64 = t[1].parse().unwrap();
+                let w = waker();
+                let mut cx = Context::from_waker(&w);
+                match slots.get_mut(&slot) {
+                    Some(f) => match f.as_mut().poll(&mut cx) {
+                        Poll::Ready(v) => {
+                            out.push(format!("poll ready {}", v.unwrap_or_default()));
+                            slots.remove(&slot);
+                        }
+                        Poll::Pending => out.push("poll pending".into()),
+                    },
+                    None => out.push("poll noslot".into()),
+                }
+                out.push(format!("execs {}", env::execs()));
+            }
+            "drop" => {
+                let slot: u64 = t[1].parse().unwrap();
+                slots.remove(&slot);
+                out.push("dropped".into());
+            }
+            "sleep_ms" => std::thread::sleep(std::time::Duration::from_millis(t[1].parse().unwrap())),
+            "inv_tag" => out.push(format!("inv {}", cachelito_core::invalidate_by_tag(t[1]))),
+            "inv_event" => out.push(format!("inv {}", cachelito_core::invalidate_by_event(t[1]))),
+            "inv_dep" => out.push(format!("inv {}", cachelito_core::invalidate_by_dependency(t[1]))),
+            "inv_cache" => out.push(format!("inv {}", cachelito_core::invalidate_cache(t[1]))),
+            "inv_with" => {
+                let keys: Vec<String> = t[2..].iter().map(|x| x.replace("%20", " ")).collect();
+                out.push(format!("inv {}", cachelito_core::invalidate_with(t[1], |k| keys.iter().any(|x| x == k))));
+            }
+            "inv_all_with" => {
+                let pairs: Vec<(String, String)> = t[1..].iter().map(|x| { let mut p = x.splitn(2, ':'); (p.next().unwrap().to_string(), p.next().unwrap_or("").replace("%20", " ")) }).collect();
+                out.push(format!("inv {}", cachelito_core::invalidate_all_with(|c, k| pairs.iter().any(|(pc, pk)| pc == c && pk == k))));
+            }
+            "keys" => {
+                let seen = Arc::new(Mutex::new(Vec::<String>::new()));
+                let s2 = seen.clone();
+                let r = cachelito_core::invalidate_with(t[1], move |k| {
+                    s2.lock().unwrap().push(k.to_string());
+                    false
+                });
+                let mut ks = seen.lock().unwrap().clone();
+                ks.sort();
+                out.push(format!("keys {} {}", r, ks.iter().map(|k| k.replace(' ', "%20")).collect::<Vec<_>>().join(" ")));
+            }
+            "stats" => match cachelito_core::stats_registry::get(t[1]) {
+                Some(s) => out.push(format!("stats {} {}", s.hits(), s.misses())),
+                None => out.push("stats none".into()),
+            },
+            "stats_reset" => out.push(format!("reset {}", cachelito_core::stats_registry::reset(t[1]))),
+            "log" => {
+                let log = env::with(|s| s.log.clone());
+                for e in &log[logpos..] {
+                    match e {
+                        env::Ev::Exec(id, a) => out.push(format!("ev exec {} {}", id, a.iter().map(|x| x.to_string()).collect::<Vec<_>>().join(" "))),
+                        env::Ev::Pred(id, k, v, b) => out.push(format!("ev pred {} {} {} {}", id, k.replace(' ', "%20"), v.replace(' ', "%20"), *b as u8)),
+                        env::Ev::Stale(id, k, v, b) => out.push(format!("ev stale {} {} {} {}", id, k.replace(' ', "%20"), v.replace(' ', "%20"), *b as u8)),
+                    }
+                }
+                logpos = log.len();
+            }
+            other => out.push(format!("unknown directive {}", other)),
+        }
+    }
     out
 }
